@@ -1340,6 +1340,33 @@ def special_c14(prop, tier, seed, bins, out, problems):
 SPECIAL["C14"] = special_c14
 
 
+def chunk_footprint_violation(lines):
+    """C03 on a one-shot chunk that is consumed through nth / skip / step_by / fold: whatever the chunk hands out or
+    destroys (the event of a next_chunk call reports both, the chunk is dropped before the call returns) lies inside
+    [begin, begin + announced length) -- a chunk is at most the n consecutive positions from its begin index"""
+    call = {}
+    for l in lines or []:
+        m = re.match(r"^E (\d+) call (\S+)", l)
+        if m:
+            call[m.group(1)] = m.group(2)
+            continue
+        m = re.match(r"^E (\d+) ret chunk:(\d+):(\S*):(\d+):(\d+):(\d+) \| (\S+)", l)
+        if not m or not call.get(m.group(1), "").startswith("chunk:"):
+            continue
+        b, runs, ann0, drops = int(m.group(2)), m.group(3), int(m.group(4)), m.group(7)
+        lo, hi = b, b + ann0
+        for r_ in [x for x in runs.split(",") if x and x != "-"]:
+            f = r_.split("/")
+            if f[0] != "-" and not (lo <= int(f[0]) and int(f[0]) + int(f[2]) <= hi):
+                return "the chunk [%d, %d) handed out the positions [%s, +%s)" % (lo, hi, f[0], f[2])
+        if drops != "-":
+            for d_ in drops.split(","):
+                dl, dc = (int(x) for x in d_.split("/"))
+                if dc and not (lo <= dl and dl + dc <= hi):
+                    return "the chunk [%d, %d) destroyed the positions [%d, %d), which are not its own" % (lo, hi, dl, dl + dc)
+    return None
+
+
 def chunk_style_stream(prop, tier, seed, bins, out, problems, kinds=None, chks=(8, 2)):
     """chunks consumed through the other methods of Iterator (nth, skip, last, count, fold, step_by) instead of next():
     the model does not describe these consumptions, so the traces are judged by the extracted ledger and index
@@ -1353,7 +1380,7 @@ def chunk_style_stream(prop, tier, seed, bins, out, problems, kinds=None, chks=(
     for i in range(n):
         c = gen_cases.gen_conc(r, "%s-style-%d" % (prop, i), dict(next=2, chunk=6, buf=4, skip=1),
                                kinds=kinds or [("vec", 4), ("array", 3), ("iter", 3)], owning_only=(kinds is None))
-        c["chunkstyle"] = r.choice(["nth", "skip", "last", "count", "fold", "stepby"])
+        c["chunkstyle"] = r.choice(["nth", "skip", "last", "count", "fold", "stepby", "nextnth", "nextskip", "nextstep", "foldpanic"])
         c["final"] = r.choice(["drop", "seq:1", "seq:100"])
         c["sched"] = None
         cases.append(c)
@@ -1384,7 +1411,11 @@ def chunk_style_stream(prop, tier, seed, bins, out, problems, kinds=None, chks=(
             continue
         failed = [p for p, good in chk.get(cid, {}).items() if not good]
         fl = flags.get(cid, [])
-        if failed:
+        foot = chunk_footprint_violation(il) if prop == "C03" else None
+        if foot:
+            rec.update(what="chunk consumed with %s(): %s" % (c["chunkstyle"], foot), checker="chunk-footprint", impl_trace=il)
+            out["violations"].append(rec)
+        elif failed:
             rec.update(what="chunk consumed with %s(): checker(s) %s return false on the implementation trace" % (c["chunkstyle"], ",".join("chk_C%02d" % int(p) for p in failed)),
                        checker="chk_C%02d" % int(failed[0]), impl_trace=il)
             out["violations"].append(rec)
@@ -1571,8 +1602,22 @@ def mk_special_nonfused(chks, final=None, lying=None, cut_env=True):
     return sp
 
 
-SPECIAL["C01"] = mk_special_nonfused((1,), lying=(1,))
-SPECIAL["C03"] = mk_special_nonfused((3,))
+def chain(*fs):
+    def sp(prop, tier, seed, bins, out, problems):
+        for f in fs:
+            f(prop, tier, seed, bins, out, problems)
+    return sp
+
+
+def style_special(chks):
+    def sp(prop, tier, seed, bins, out, problems):
+        chunk_style_stream(prop, tier, seed, bins, out, problems, chks=chks)
+    return sp
+
+
+# C01: a position that one caller's chunk destroys and another caller is handed is delivered to two owners: the ledger judges
+SPECIAL["C01"] = chain(mk_special_nonfused((1,), lying=(1,)), style_special((8,)))
+SPECIAL["C03"] = chain(mk_special_nonfused((3,)), style_special((8, 2)))
 SPECIAL["C04"] = mk_special_nonfused((4, 2))
 SPECIAL["C06"] = mk_special_nonfused((6,), lying=(6,))
 # C10: the remainder is what the wrapped iterator still holds, also behind a premature None: judged against the uncut environment
